@@ -74,14 +74,25 @@ def _(self: Port, token: Token):
     ensures(self.token_list == old(self.token_list) + [token])
 
 
+# ghost: the provenance links requested so far — one entry per _persist_token call: the token, the port it is persisted for, and
+# the ENTITIES whose ids were handed over as its inputs (what _persist_token does with the ids is proved in contracts/C07.py)
+cls("IdList", ents=List[Token])  # stands for the list of ids returned by get_entity_ids(ents)
+cls("Links", toks=List[Token], ports=List[Port], srcs=List[List[Token]])
+const("PROV", Links)
+
+
 @assumed("streamflow/workflow/step.py", "BaseStep._persist_token")
-def _(self: BaseStep, token: Token, port: Port, input_token_ids: List[Int]) -> Token:
-    assigns(token.persistent_id)
+def _(self: BaseStep, token: Token, port: Port, input_token_ids: IdList) -> Token:
+    assigns(token.persistent_id, PROV.toks, PROV.ports, PROV.srcs)
     ensures(result is token)
+    ensures(PROV.toks == old(PROV.toks) + [token] and PROV.ports == old(PROV.ports) + [port] and len(PROV.srcs) == old(len(PROV.srcs)) + 1
+            and forall(range(0, old(len(PROV.srcs))), lambda j: PROV.srcs[j] == old(PROV.srcs)[j])
+            and PROV.srcs[len(PROV.srcs) - 1] == input_token_ids.ents)
 
 
 @extern("get_entity_ids")
-def _(persistable_entities: List[Token]) -> List[Int]: ...
+def _(persistable_entities: List[Token]) -> IdList:
+    ensures(fresh(result) and result.ents == persistable_entities)
 
 
 @spec
@@ -117,7 +128,7 @@ def _(self: GatherStep) -> Port:
 def _(self: ScatterStep, token: ListToken):
     note("the non-list branch (raise WorkflowDefinitionException) is excluded by the parameter sort")
     requires(wf_tag(token.tag))
-    assigns(out_port(self).token_list, size_port_of(self).token_list, all_of("Token.persistent_id"))
+    assigns(out_port(self).token_list, size_port_of(self).token_list, all_of("Token.persistent_id"), PROV.toks, PROV.ports, PROV.srcs)
     # element i goes out retagged <tag>.<i>, in list order, with its value ...
     ensures(len(out_port(self).token_list) == old(len(out_port(self).token_list)) + len(token.value))
     ensures(forall(range(0, old(len(out_port(self).token_list))), lambda j: out_port(self).token_list[j] is old(out_port(self).token_list[j])))
@@ -127,7 +138,20 @@ def _(self: ScatterStep, token: ListToken):
     ensures(len(size_port_of(self).token_list) == old(len(size_port_of(self).token_list)) + 1)
     ensures(size_port_of(self).token_list[len(size_port_of(self).token_list) - 1].tag == token.tag
             and size_port_of(self).token_list[len(size_port_of(self).token_list) - 1].value == len(token.value))
-    hint("loop0:init", let(O0=out_port(self).token_list))
+    # C07 at this call site: every emitted element, and the size token, is linked to exactly the scattered list token and persisted
+    # for the port it is put on
+    requires(len(PROV.toks) == len(PROV.srcs) and len(PROV.toks) == len(PROV.ports))
+    ensures_for("C07", len(PROV.toks) == old(len(PROV.toks)) + len(token.value) + 1 and len(PROV.srcs) == len(PROV.toks) and len(PROV.ports) == len(PROV.toks))
+    ensures_for("C07", forall(range(0, len(token.value)), lambda i: PROV.toks[old(len(PROV.toks)) + i] is out_port(self).token_list[old(len(out_port(self).token_list)) + i]
+                   and PROV.ports[old(len(PROV.toks)) + i] is out_port(self)
+                   and len(PROV.srcs[old(len(PROV.toks)) + i]) == 1 and PROV.srcs[old(len(PROV.toks)) + i][0] is token))
+    ensures_for("C07", PROV.toks[len(PROV.toks) - 1] is size_port_of(self).token_list[len(size_port_of(self).token_list) - 1]
+            and PROV.ports[len(PROV.toks) - 1] is size_port_of(self)
+            and len(PROV.srcs[len(PROV.toks) - 1]) == 1 and PROV.srcs[len(PROV.toks) - 1][0] is token)
+    hint("loop0:init", let(O0=out_port(self).token_list, P0=len(PROV.toks)))
+    invariant(0, len(PROV.toks) == P0 + i and len(PROV.srcs) == len(PROV.toks) and len(PROV.ports) == len(PROV.toks))
+    invariant(0, forall(range(0, i), lambda k: PROV.toks[P0 + k] is out_port(self).token_list[len(O0) + k] and PROV.ports[P0 + k] is out_port(self)
+                        and len(PROV.srcs[P0 + k]) == 1 and PROV.srcs[P0 + k][0] is token))
     invariant(0, len(out_port(self).token_list) == len(O0) + i and forall(range(0, len(O0)), lambda j: out_port(self).token_list[j] is O0[j]), index="i")
     invariant(0, forall(range(0, i), lambda k: out_port(self).token_list[len(O0) + k].tag == token.tag + "." + str(k)
                         and out_port(self).token_list[len(O0) + k].value == token.value[k].value))
@@ -143,7 +167,14 @@ def _(self: GatherStep, key: Str):
     # the tags of one key's elements are pairwise different (one element per scatter index)
     requires(forall(range(0, len(self.token_map[key])), range(0, len(self.token_map[key])),
                     lambda a, b: implies(a != b, self.token_map[key][a].tag != self.token_map[key][b].tag)))
-    assigns(out_port(self).token_list, all_of("Token.persistent_id"))
+    assigns(out_port(self).token_list, all_of("Token.persistent_id"), PROV.toks, PROV.ports, PROV.srcs)
+    # C07 at this call site: the gathered list is linked to the size token and to EVERY collected element of the key, nothing else
+    requires(len(PROV.toks) == len(PROV.srcs) and len(PROV.toks) == len(PROV.ports))
+    ensures_for("C07", len(PROV.toks) == old(len(PROV.toks)) + 1 and PROV.toks[len(PROV.toks) - 1] is out_port(self).token_list[len(out_port(self).token_list) - 1]
+            and PROV.ports[len(PROV.toks) - 1] is out_port(self))
+    ensures_for("C07", len(PROV.srcs[len(PROV.srcs) - 1]) == 1 + len(self.token_map[key]))
+    ensures_for("C07", PROV.srcs[len(PROV.srcs) - 1][0] is self.size_map[key])
+    ensures_for("C07", forall(range(0, len(self.token_map[key])), lambda j: PROV.srcs[len(PROV.srcs) - 1][1 + j] is self.token_map[key][j]))
     ensures(len(out_port(self).token_list) == old(len(out_port(self).token_list)) + 1)
     ensures(forall(range(0, old(len(out_port(self).token_list))), lambda j: out_port(self).token_list[j] is old(out_port(self).token_list[j])))
     # one list token with the key as tag, holding exactly the key's elements ordered by tag: depth first, then numerically
